@@ -64,6 +64,16 @@ CHECKS = {
         note="Order of events inside one batch call is not compared (DESIGN 4.7).",
         technique=SIM + "; per-entity event/model-difference oracle",
         ref="DESIGN.md section 5, C11"),
+    "C16": dict(
+        text="Generated interleavings of registrations of generated type shapes (relation embedded first / later / absent, structs, arrays, zero-sized, non-struct) with entity operations biased to the newest and highest IDs, re-registration, registration under lock, filling the registry to the limit plus one, and the resource registry likewise; after every operation the registry observables are checked for density, stability and consistency and every tracked entity is read through every registered ID. Both mask-width builds in both tiers.",
+        note="Type shapes come from a finite family built with reflect; a named (non-embedded) first field of type ecs.Relation is not generated (ambiguous in the docs, DESIGN 4.11).",
+        technique="stateful property-based testing (rapid) against a registry/entity model; read-back through every registered ID",
+        ref="DESIGN.md section 5, C16"),
+    "C20": dict(
+        text="Generated Add/Remove/Get/Has sequences over 4 static resource types through all three access styles and up to the limit of dynamic ones, interleaved with component registrations, entity operations, world locks and Reset, with illegal Add-present/Remove-absent injected; after every operation every registered resource is read through every accessor and compared with a map model (exact pointer identity, nil when absent, dense independent IDs).",
+        note="Resource type registration under lock is not asserted to panic (DESIGN 4.14).",
+        technique="stateful property-based testing (rapid) against a map model with pointer identity",
+        ref="DESIGN.md section 5, C20"),
 }
 
 PENDING_REASON = "check under construction in this session (designed in DESIGN.md section 5); not claimed until it runs clean"
